@@ -64,6 +64,7 @@ def truthy : Val → Bool
   | .int i => i != 0
   | .bool b => b
   | .elem _ => true
+  | .method _ _ => true
 
 /-! ### the element view -/
 
@@ -76,6 +77,7 @@ structure FieldView where
 /-- `element.raw` as the SetWith… validators see it through `to_pairs` -/
 inductive RawView
   | unset                      -- `Unset`: never set(), or set_flat()
+  | iterator                   -- a one-shot iterator / generator: `hasattr(raw, "__next__")` (fe503f0)
   | none
   | pairs (keys : List Val)    -- dict-like or iterable of pairs: the keys (text, or int/bool/None), in order
   | notIterable                -- `to_pairs` raises TypeError (int, list of ints …)
@@ -405,6 +407,7 @@ def verdict (v : V) (e : View) : Except Raise Verdict :=
     match e.raw with
     | .unset => pass
     | .none => pass
+    | .iterator => pass                                          -- consumed by set(): nothing to inspect
     | .notIterable => pass
     | .badPairs => pass                                          -- (TypeError, ValueError) caught
     | .pairs given =>
@@ -416,6 +419,7 @@ def verdict (v : V) (e : View) : Except Raise Verdict :=
     match e.raw with
     | .unset => pass
     | .none => pass
+    | .iterator => pass
     | .notIterable => pass
     | .badPairs => pass
     | .pairs given =>
@@ -490,7 +494,10 @@ def verdict (v : V) (e : View) : Except Raise Verdict :=
     if discardParts.isEmpty then pass
     else match e.canon with
       | none => fail "bad_format"
-      | some _ => pass
+      | some _ =>
+        -- `idx = _url_parts.index(part)` is outside the try: a name that is not one of the six
+        -- generic parts is a ValueError (the value is assigned only after the loop)
+        if discardParts.all (fun p => urlPartNames.contains p) then pass else .error .valueError
 
 /-- the value after the call: only `URLCanonicalizer` assigns `element.value` -/
 def valueAfter (v : V) (e : View) : Val :=
@@ -550,7 +557,7 @@ def View.attrs (e : View) : List (Str × Val) :=
 /-- the lookup environment of `expand_message(element, None, message, **info)`: no state, no
     translators -/
 def envOf (v : V) (e : View) (info : List (Str × Val)) : Env :=
-  { targets := [{ subscriptable := true, items := info, attrs := [] },
+  { targets := [kwTarget info,
                 { subscriptable := false, items := [], attrs := v.attrs },
                 { subscriptable := false, items := [], attrs := e.attrs }],
     uState := ⟨.absent, .notSubscriptable⟩, nState := ⟨.absent, .notSubscriptable⟩,
@@ -577,5 +584,20 @@ def runWith (table : List BuiltinMsg) (v : V) (e : View) (errors : List Str) :
 
 def run (v : V) (e : View) (errors : List Str) : Except Raise Outcome :=
   runWith Flatland.Generated.C16.builtinMessages v e errors
+
+/-- `Validator.__init__(**kw)`: message attributes overridden on the instance shadow the
+    class's templates -/
+def overrideTable (table : List BuiltinMsg) (cls : String) (overrides : List (String × Msg)) :
+    List BuiltinMsg :=
+  overrides.map (fun (attr, m) =>
+    match m with
+    | .plain t => { cls := cls, attr := attr, single := t, plural := none, nkey := none,
+                    supplied := [], vattrs := [] }
+    | .plural s p k => { cls := cls, attr := attr, single := s, plural := some p, nkey := some k,
+                         supplied := [], vattrs := [] }) ++ table
+
+def runOverridden (overrides : List (String × Msg)) (v : V) (e : View) (errors : List Str) :
+    Except Raise Outcome :=
+  runWith (overrideTable Flatland.Generated.C16.builtinMessages v.className overrides) v e errors
 
 end Flatland.C15
